@@ -6,7 +6,7 @@ VARIABLE x
 Obs == ndJsonDeserialize(IOEnv.VERIF_OBS)
 fG == <<102,105,101,108,100,71>> fH == <<102,105,101,108,100,72>>
 fB == <<102,105,101,108,100,66>> fC == <<102,105,101,108,100,67>> fD == <<102,105,101,108,100,68>> fE == <<102,105,101,108,100,69>>
-t_ren == <<114,101,110>> t_st == <<115,116>> t_pre == <<112,114,101>> t_only1 == <<111,110,108,121,49>>
+t_ren == <<114,101,110>> t_st == <<115,116>> t_pre == <<112,114,101>> t_only1 == <<111,110,108,121,49>> t_st0 == <<115,116,48>>
 \* the probe rule AFTER the two preceding items (set_state k=v, id st ; replace_string on fieldK, id pre ; fieldA -> fieldB and fieldK -> fieldK1, fieldK2, id ren ; replace_string on fieldK1 only, id only1)
 Rule == [ls |-> [cat |-> <<99>>, prod |-> <<119,105,110,100,111,119,115>>, svc |-> <<>>],
          tags |-> <<(<<97,116,116,97,99,107,46,116,49,48,48,48>>)>>, corr |-> FALSE,
@@ -18,7 +18,7 @@ Rule == [ls |-> [cat |-> <<99>>, prod |-> <<119,105,110,100,111,119,115>>, svc |
                      [field |-> <<102,105,101,108,100,75,49>>, vals |-> <<VStr("str", <<107,120>>, <<>>)>>, applied |-> <<t_pre, t_ren, t_only1>>],      \* fieldK1: also processed by only1
                      [field |-> <<102,105,101,108,100,75,50>>, vals |-> <<VStr("str", <<107,119>>, <<>>)>>, applied |-> <<t_pre, t_ren>>]>>,
          fields |-> <<[name |-> fB, applied |-> <<t_ren>>], [name |-> fE, applied |-> <<>>]>>,
-         applied |-> <<t_st, t_pre, t_ren, t_only1>>, state |-> <<(<<(<<107>>), (<<118>>)>>)>>,
+         applied |-> <<t_st, t_pre, t_ren, t_only1, t_st0>>, state |-> <<(<<(<<107>>), (<<118>>)>>), (<<(<<122>>), (<<>>)>>)>>,      \* k = "v", z = ""
          attrs |-> <<[name |-> <<115,101,118,101,114,105,116,121,95,115,99,111,114,101>>, kind |-> "int", n |-> 5, s |-> <<>>],
                      [name |-> <<108,101,118,101,108>>, kind |-> "level", n |-> 4, s |-> <<>>],
                      [name |-> <<97,117,116,104,111,114>>, kind |-> "str", n |-> 0, s |-> <<109,101>>]>>]
